@@ -33,6 +33,11 @@ CLAIMED = {
    note="Trusted: the page-set model in props/c15.rs, pread on the memfd as an observation independent of the crate. Lost updates of a non-atomic read-modify-write are detected only probabilistically (stress, not schedule control). While logging, a table change the log window cannot cover may be refused (then the old table must stay).",
    technique="model-based property testing (proptest histories vs. page-set model) + multi-thread stress for atomicity",
    ref="DESIGN.md section 3, C15"),
+ "C16": dict(level="fault_enumeration",
+   text="Enumeration of shutdown/teardown scenarios on real daemons: 9 positions of the shutdown request relative to the daemon thread's progress (three pinned exactly with hold points in the thread loop, the others reached by peer behaviour: partial header, header without body, blocked inside the back end's callback, reply path filled until the thread sleeps in sendmsg, peer gone) x 1..3 callers (sequential/concurrent) x events interleaved between the two steps of a shutdown request (hold point): peer close, daemon request error, second caller, a wait() running meanwhile or already blocked; peer close at every byte offset of 8 request kinds for wait() and serve(); 5 request-error kinds; drop of a connected daemon. Every scenario checks wait()'s result, bounded completion (helper thread + thread-state report), EOF at the peer, a successful restart on a new connection and the thread count after drop. The scenario space is finite and enumerated completely (repeated 5x in quick for timing variance).",
+   note="Trusted: hold-point controller (sched.rs), /proc thread accounting, a 10 s bound as 'does not complete' on an otherwise idle process. Not asserted: wait() result when the peer closes right after a complete request that has a reply; serve() result for cuts inside a body. Interleavings are explored at hold-point granularity.",
+   technique="fault/schedule enumeration with harness-owned hold points and scripted peer behaviour",
+   ref="DESIGN.md section 3, C16"),
  "C17": dict(level="exploration",
    text="Every queues-per-thread configuration with num_queues<=4 and <=2 worker masks (quick; <=3 masks thorough), each mask any value below 2^(num_queues+2), is built as a real daemon and every queue is kicked once (exhaustive over that finite sub-space), plus sampled configurations up to 6 queues x 3 threads; owner thread, event id (rank), ring-slice length and ring identity (size 2^(q+1)) are compared with the first-principles formula, other workers must stay silent (double barrier on every worker), dropping the daemon must terminate the workers through the exit event. Custom listener ids over the 64-bit range must be delivered exactly or refused.",
    note="Trusted: the double barrier, the first-principles owner/rank formula in props/c17.rs. Queues in no mask: only silence is checked. Listener ids that cannot be delivered may be refused (acceptance creates the obligation). A hung teardown is diagnosed after 10 s with the worker threads' states and ends the run as a violation.",
